@@ -237,7 +237,7 @@ Optimize(st, u) ==
 ConstsOf(st, order) ==
     FoldLeft(LAMBDA cs, id : FoldLeft(LAMBDA c, x : IF IsC(x) THEN AddConst(c, x[2]) ELSE c, cs, st.nodes[id].ins),
              <<>>, order)
-PosIn(order, id) == CHOOSE k \in 1..Len(order) : order[k] = id
+PosIn(order, id) == IF \E k \in 1..Len(order) : order[k] = id THEN CHOOSE k \in 1..Len(order) : order[k] = id ELSE 0 - 7   \* (a reference to a unit that is no longer there)
 DefOf(p, cb, st, order, cs) ==
     LET spec(x) == IF IsC(x) THEN <<0 - 1, CIdx(cs, x[2])>> ELSE <<PosIn(order, x[2]) - 1, x[3]>>
         unit(id) == LET n == st.nodes[id] IN
